@@ -3,7 +3,7 @@ SPEC = dict(
     title="Every PWM value written while regulating stays inside the fan's limits",
     props_file='Props/C01.v', props_mod='Props.C01',
     props_extra=[('Props/C01Link.v', 'Props.C01Link')],
-    proof_files=['Proofs/Rescale.v', 'Proofs/Ctrl.v', 'Drv/CtrlC01.v'],
+    proof_files=['Proofs/CtrlLinksC01Dev.v', 'Proofs/Rescale.v', 'Proofs/Ctrl.v', 'Drv/CtrlC01.v'],
     tie_vo=['Proofs/LeafTie.vo', 'Proofs/ConstsTie_basic.vo', 'Proofs/ConstsTie_clamp.vo', 'Proofs/ConstsTie_stall.vo', 'Proofs/LeafTie2_calcTarget.vo', 'Proofs/LeafTie2_DirectCycle.vo', 'Proofs/LeafTie2_PidCycle.vo', 'Proofs/LeafTie2_applyPwmMapping.vo', 'Proofs/LeafTie2_HwMonGetMinPwm.vo', 'Proofs/LeafTie2_HwMonGetMaxPwm.vo', 'Proofs/LeafTie2_HwMonGetRpmAvg.vo', 'Proofs/LeafTie2_HwMonSetRpmAvg.vo', 'Proofs/LeafTie2_HwMonShouldNeverStop.vo'],
     drivers=[dict(name='ctrl', drv_mod='Drv.CtrlC01', drv_file='Drv/CtrlC01.v', shard=100,
                   extra_mods=[('Drv.CtrlC01Dev', 'Drv/CtrlC01Dev.v')],
